@@ -167,3 +167,22 @@ def add_transit_recorders(house):
 
 def outline_names(framer):
     return [f.name for f in framer.actives]
+
+
+CLOCKS = []       # (framer name, frame name, framer.elapsed, framer.recurred, elapsed share value, recurred share value)
+
+
+@doing.doify('VerifClock')
+def verifClock(self, **kwa):
+    fr = self._act.frame
+    m = fr.framer
+    CLOCKS.append((m.name, fr.name, m.elapsed, m.recurred, m.elapsedShr.value, m.recurredShr.value))
+
+
+STAMPS = []       # (framer name, store stamp) one entry per framer run
+
+
+@doing.doify('VerifStamp')
+def verifStamp(self, **kwa):
+    fr = self._act.frame
+    STAMPS.append((fr.framer.name, self.store.stamp))
